@@ -91,8 +91,8 @@ PROPS = {
     },
     "C02": {
         "panic_is_violation": True,
-        "proved": "for every byte string parse_value's model returns a value or an error: never a panic (two-pass string scanner, data[0] after \\u, char::from_u32.unwrap, usize subtractions all shown safe), never out of fuel; u64/i64 integers exact (-0 is Int64(0), i64::MIN); completeness on compact RFC 8259 renderings of arbitrary trees with integer numbers (last duplicate key wins)",
-        "missing": 'float literals: correct rounding is by construction of F64.ofDecimal (validated against fast_float2 by correspondence, not proved against an axiomatic real-number spec); soundness direction (accepted text is in the relaxed language) is decided by correspondence only; whitespace/escape-spelling variants beyond the compact renderer by the jexpect oracle',
+        "proved": 'the parser model (parser.rs + util.rs as written, every index / slice / unwrap an explicit panic outcome) is total for every byte string (no panic, fuel adequate: accepts or rejects with an error); EVERY RFC 8259 document is accepted with the value it denotes — inclusion theorem against an independent strict RFC 8259 reader for every byte string (C02_rfc8259_accepted: white space, all escapes incl. surrogate pairs, full number grammar with exact u64 / i64 and correctly rounded doubles, nesting, duplicate keys: last wins); what the crate rejects RFC 8259 rejects; integers exact; completeness on compact renderings',
+        "missing": "the converse bound on the relaxations (that NOTHING beyond the listed relaxations is accepted) is decided by correspondence on corruptions / token soups only; float rounding is exact big-Nat arithmetic in the model (F64.ofDecimal), validated against the real parser and std's parse on 1..19-digit decimals",
         "assumptions": [],
     },
     "C03": {
@@ -103,38 +103,38 @@ PROPS = {
     },
     "C08": {
         "panic_is_violation": True,
-        "proved": 'REFINEMENT of the byte-level selector (find_positions frontier, select_* walkers, filter dispatch, value collection, comparison, writers) against the tree-level denotation evalPaths, for every good document and every path AST the parser can build (suppPaths): all mode appends exactly the canonical encodings of the denoted items in document order with their end offsets (soundness for every fuel; completeness, no panic, and error iff the path has no meaning); first mode = first item; array mode = canonical array of the items; mixed rule; predicate paths = one boolean in every mode; path_exists / path_match exact; termination and fuel monotonicity; frame property of the writers; exact in-range index arithmetic',
-        "missing": 'suppPaths is a decidable over-approximation of what parse_json_path builds (checked on examples by the kernel, not proved of the parser); first/array/mixed modes have the soundness direction only; four hand-built AST shapes the parser cannot produce are outside (see DESIGN)',
+        "proved": 'REFINEMENT of the byte-level selector (find_positions frontier, select_* walkers, filter dispatch, value collection, comparison, writers) against the tree-level denotation evalPaths, for every good document and every path: all mode appends exactly the canonical encodings of the denoted items in document order with their end offsets (sound at every fuel; complete; no panic; error iff the path denotes nothing); first / array / mixed / predicate modes; path_exists / path_match exact; EVERY AST parse_json_path accepts is covered (C08_parser_builds_supported, C08_parser_wellformed); the fuel the functions run with is adequate (C08_fuel_adequate, quantitative termination) and END TO END for every accepted text and good document (C08_end_to_end); frame property of the writers; exact in-range index arithmetic',
+        "missing": "first / array / mixed modes have the soundness direction against the denotation (their mutual consistency is exact: C15_modes_consistent); cross-kind comparisons follow the code's derived order (not judged by the property)",
         "assumptions": ['documents are canonical encodings of good values; array/mixed: document below 2^28 bytes and fewer than 2^29 items'],
     },
     "C09": {
         "panic_is_violation": True,
-        "proved": "for every byte string parse_json_path's model (nom 7.1.3 combinators incl. Failure propagation) returns a path or an error: no panic, fuel adequate; print->parse identity for $ followed by member names, wildcards, index lists, ranges and last offsets over the whole i32 range",
-        "missing": 'print->parse for filters/expressions and layout variants: decided by the jpexpect (intended structure shipped with the text) and jproundtrip oracles',
+        "proved": 'parser model over a model of the nom 7.1.3 combinators total for every byte string; print -> parse identity for the whole documented language: steps, index lists, ranges, `last` offsets, filter steps and predicates with comparisons of `$`/`@` operand paths and literals of every scalar kind (negative, fractional, exponent numbers, the empty string), `&&` / `||` in any nesting (printer parentheses faithful), `exists` with nested filters (C09_print_parse); `&&` binds tighter than `||` (C09_precedence); EVERY rendering with arbitrary white-space runs, `last`/`to` in any case, any quoting style of names, escapes in quoted strings, `!=`/`<>` parses to the structure it renders (C09_every_rendering_*, C09_every_style); accepted ASTs are well formed (i32 indices, u64/i64 literals, valid UTF-8)',
+        "missing": 'known findings D22a (`."5e"` prints as `.5e`, rejected) and D22b (`-1e999` prints as `-inf`, rejected), proved as C09_finding_*; float literals depend on the formatter hypothesis goodFloat; arithmetic atoms and `\\u{…}` / surrogate escapes in names are outside the print->parse theorem (oracle jproundtrip / jpexpect)',
         "assumptions": [],
     },
     "C15": {
         "panic_is_violation": True,
-        "proved": 'on the selector model: first = all truncated to one item, mixed = array if >= 2 items else all, exists iff all-mode non-empty, offsets delimit items (one per item, last at the end of data), predicate paths give the same boolean in every mode = predicate_match, exists true',
-        "missing": 'array-mode holds exactly the all-mode items: evaluated on the real code by the modes oracle (array_values of the array result = the all-mode items)',
+        "proved": "on every good document and every path with well-formed operands, between the MODEL results of the modes: one item list gives all four modes for every prior buffer, or all four fail alike (C15_modes_consistent); array-mode holds exactly the documents delimited by the all-mode offsets (C15_array_holds_all_items, C15_offsets_cut_items); first = bytes up to the first all-mode offset or nothing (C15_first_from_all); mixed rule; exists iff all-mode non-empty; predicate paths give path_match's boolean in every mode with exists true",
+        "missing": 'array / mixed statements need the document below 2^28 bytes and fewer than 2^29 items (field widths)',
         "assumptions": [],
     },
     "C16": {
         "panic_is_violation": True,
-        "proved": "for every byte string parse_key_paths' model returns key paths or an error (no panic, fuel adequate); print->parse identity for all key paths whose names need no escapes; the empty list",
-        "missing": 'layout variants: kpexpect oracle',
+        "proved": 'key path parser total for every byte string; every brace-delimited rendering with arbitrary white space around braces, commas and elements parses to its elements (signed integer -> index, quoted string with escapes decoded -> quoted name, name characters -> plain name; C16_every_rendering, C16_empty_any_spacing); print -> parse identity whenever names need no escapes; unterminated quotes / missing braces are errors',
+        "missing": '`\\u{…}` and surrogate-pair escapes inside quoted names: oracle (kpexpect / kproundtrip) and correspondence',
         "assumptions": [],
     },
     "C17": {
         "panic_is_violation": True,
-        "proved": "frame theorems, for every prior buffer content: Value::write_to_vec (Encoder with reserve_jentries/replace_jentry at absolute indices) appends exactly encodeSpec v; ArrayBuilder/ObjectBuilder build_into with nested builders append a prefix-independent image; delete_by_index, concat of arrays and array_distinct inherit it",
-        "missing": "frame theorems for the remaining editors, build_array/build_object, the selector writers and convert_to_comparable (their models append by construction; tied by correspondence with non-empty prefixes)",
+        "proved": 'UNCONDITIONAL frame theorems — every input (valid or not), every prior buffer — for every buffer-writing function: concat, delete_by_name / index / keypath, array_insert, object_insert / delete / pick, strip_nulls, array_distinct / intersection / except, build_array, build_object, convert_to_comparable (incl. its text branch), path selection in every mode incl. predicate paths with offsets as positions in that same buffer (C17_select); Encoder (reserve and patch) frame for good values; a documented error carries no buffer',
+        "missing": 'write_to_vec on values outside the field widths (the patching encoder) has the frame theorem for good values only',
         "assumptions": [],
     },
     "C11": {
         "panic_is_violation": True,
-        "proved": "for every text t sniffed as text with parse_value t = Ok v (v inside the field widths, fewer than 2^24 top-level members) and every other argument: each public function of functions.rs, modelled WITH its sniffing and its text branch (T.*), returns on t exactly what it returns on encodeSpec v = parse_value(t).to_vec(): generic theorems for the parse-encode-run shape with one and two document arguments in all four text/binary combinations (array_insert, object_insert, array_distinct/intersection/except/overlap, object_delete/pick, to_serde_json), and individual theorems through the C05/C06/C04 refinements for the functions with a tree implementation of the text branch (array_length, type_of, get_by_index/name/keypath, object_keys, as_null/bool/number/str, exists_all_keys, strip_nulls, delete_by_name, traverse_check_string, convert_to_comparable, path_exists, get_by_path*, compare in its three text cases, parse_lazy_value, contains in all three text/binary combinations (through from_slice + C10_text_fallback + the C12 byte-level refinement), concat text/text, delete_by_index)",
-        "missing": "concat mixed text/binary, delete_by_index on non-array text and delete_by_keypath text branches are decided by correspondence + the tj oracle only; D21: first byte of a valid array with >= 2^24 elements is 0x81.., which is_jsonb takes for text (C11_sniff_false_huge, known finding)",
+        "proved": "for every text t sniffed as text with parse_value t = Ok v (v inside the field widths, fewer than 2^24 top-level members) and every other argument: each public function of functions.rs, modelled WITH its sniffing and its text branch (T.*), returns on t exactly what it returns on encodeSpec v = parse_value(t).to_vec(): generic theorems for the parse-encode-run shape with one and two document arguments in all four text/binary combinations (array_insert, object_insert, array_distinct/intersection/except/overlap, object_delete/pick, to_serde_json), and individual theorems through the C05/C06/C04 refinements for the functions with a tree implementation of the text branch (array_length, type_of, get_by_index/name/keypath, object_keys, as_null/bool/number/str, exists_all_keys, strip_nulls, delete_by_name, traverse_check_string, convert_to_comparable, path_exists, get_by_path*, compare in its three text cases, parse_lazy_value, contains and concat in all three text/binary combinations (through from_slice + C10_text_fallback + the C12 / C06 refinements), delete_by_index on any text)",
+        "missing": "delete_by_keypath text branch and the to_* / is_* / object_each / array_values wrappers (not modelled as whole functions) are decided by correspondence + the tj oracle only; D21: first byte of a valid array with >= 2^24 elements is 0x81.., which is_jsonb takes for text (C11_sniff_false_huge, known finding)",
         "assumptions": ["text accepted by parse_value, not starting with a space, value inside the field widths"],
     },
     "C19": {
@@ -146,7 +146,7 @@ PROPS = {
     "C07": {
         "panic_is_violation": True,
         "proved": "CHAIN THEOREM by induction over the operation list, for all 20 operations (concat, delete by name/index/key path, array_insert, object_insert, object_delete/pick, strip_nulls, get_by_index/name/keypath, object_keys, array_distinct/intersection/except, build_array, build_object, get_by_path_first/array) with arguments that are literals, the current document or a sub-value of it: the byte-level chain on encodeSpec v returns exactly the encodings of the tree-level chain (C07_chain), every intermediate tree is canonical (C07_chain_good), every intermediate byte string decodes with nothing trailing, re-encodes to the identical bytes (C07_intermediate_canonical) and byte equality coincides with value identity across chains (C07_chains_byte_eq_iff); the side conditions of the growing operations are pure size bounds (C07_sizes: sortedness/uniqueness of keys, UTF-8, number ranges and nested lengths are preserved without assumption); a sound Bool checker of the side conditions (C07_checker) and two kernel-checked chains covering all 20 operations",
-        "missing": "for JSONPath steps with filters the adequacy of the evaluator fuel is a hypothesis (third conjunct of PathOK; discharged for filter-free paths by C07_path_plain, decidable by evaluation); results must stay inside the format's field widths (count < 2^29, embedded payload < 2^28)",
+        "missing": "results must stay inside the format's field widths (count < 2^29, embedded payload < 2^28): pure size bounds (C07_sizes); JSONPath steps need no fuel hypothesis any more (C07_path_supp / C07_path_parsed)",
         "assumptions": ["start document is the canonical encoding of a good value; literal arguments are canonical documents"],
     },
     "C20": {
